@@ -362,6 +362,15 @@ def rule_bm_table(ctx):
             if not (kst or lst):
                 continue
             onp = [a for a in atoms if a[0] in evs]
+            if not onp and len({id((a[1][2] or {}).get("node")) for a in atoms}) == 1:
+                # a helper that tests the length first and returns before comparing any bytes: the kernel's one byte comparison names the probe
+                onp = atoms[-1:]
+                # ... on whichever path built the probe the way this path did (an array value is named after its allocation site)
+                for a in atoms:
+                    pr = [o for o in a[4] if not (isinstance(o, ArrSlice) and o.arr.name == keyt)]
+                    if pr and kst and all(_same_source(x.value, pr[0]) for x in kst):
+                        onp = [a]
+                        break
             if not onp:
                 res.append((None, "no key comparison on the replacement path"))
                 continue
@@ -589,7 +598,16 @@ def rule_hh_addr(ctx, rule="addr"):
                 why = "access is not [row, col, ...] inside `for row in range(depth)`"
                 if okk:
                     evs = [x for x in on_path(w.events, e) if x.loops == e.loops]
-                    hs = hash_site(w, evs, nums[1], e)
+                    colv = nums[1]
+                    ct = colv.lin.single_term()
+                    if ct is not None and ct[0] == "cell" and ct[1] not in tabs:
+                        # a scratch array of columns filled, for every row, by an earlier pass over the same rows (rules_arith.two_pass_fill)
+                        from .rules_arith import two_pass_fill
+                        tp_ = two_pass_fill(w, ct, lp, evs)
+                        if tp_ is not None:
+                            lp, fill_store, evs = tp_
+                            colv = fill_store.value
+                    hs = hash_site(w, evs, colv, e)
                     if not hs:
                         okk, why = False, "column is not `fasthash64(key, row) % width`"
                     else:
@@ -637,6 +655,16 @@ def rule_maxcount(ctx):
     acc = next(iter(accs))
     loops = [n for n in walk_no_nested(k.node) if isinstance(n, (ast.For, ast.While))]
     lends = [e for e in w.events if e.kind == "loopend"]
+    # the loop that reads the count table is the row loop; a separate earlier pass that only fills a scratch array of columns
+    # (two-pass spelling; rule addr ties that array to the hash) is not a second maximum loop
+    tabs_ = {p for p, s_ in F.param_attr().get(k.key, {}).items() if s_ & {"lhh", "lhh_count", "key_lens"}}
+    rloops = [e.loops[-1] for e in w.events if e.kind == "read" and e.arr.name == cnt and e.loops]
+    if rloops and len(loops) > 1:
+        main = rloops[0]
+        others_touch = [e for e in w.events if e.kind in ("read", "store", "slicestore") and e.arr.name in tabs_ and e.loops and e.loops[-1].node is not main.node]
+        if not others_touch and any(l is main.node for l in loops):
+            loops = [main.node]
+            lends = [e for e in lends if e.loop.node is main.node]
     lp = lends[0].loop if lends else None
     okk = len(loops) == 1 and lp is not None and lp.kind == "range" and lp.start == Lin.const(0) and lp.step == Lin.const(1) \
         and depth_p and lp.stop == Lin.term(("param", depth_p))
@@ -743,8 +771,11 @@ def rule_report(ctx):
             if okk:
                 t = key.length.single_term()
                 okk = t is not None and t[0] == "cell" and t[1] == "self.key_lens" and t[3] == key.root[2]
-            res_k.append((bool(okk), "reported key = stored bytes cut to the stored length of the same cell" if okk else
-                          "reported key is not bytes(lhh[r, c, :key_lens[r, c]])", fact_strs(e)))
+            # cells enumerated by something other than range loops (np.nonzero, a precomputed index list): which cell a (row, column)
+            # pair names is not read -- undecided, not refuted
+            unread = any(l.kind != "range" for l in e.loops)
+            res_k.append(((None if unread and not okk else bool(okk)), "reported key = stored bytes cut to the stored length of the same cell" if okk else
+                          "reported key is not bytes(lhh[r, c, :key_lens[r, c]])" + (" (cells are not enumerated by range loops: shape not read)" if unread else ""), fact_strs(e)))
             # count comes from the reader kernel called with this key
             v = e.value
             calls = [c for c in on_path(w.events, e) if c.kind == "call" and c.callee is k]
@@ -760,8 +791,8 @@ def rule_report(ctx):
                 and lps[0].stop == Lin.term(("attr", "self", "depth")) and lps[1].stop == Lin.term(("attr", "self", "width"))
             if okl and isinstance(key, Bytes) and isinstance(key.root, tuple) and len(key.root) > 2:
                 okl = key.root[2] == (Lin.term(lps[0].varterm).key(), Lin.term(lps[1].varterm).key())
-            res_l.append((bool(okl), "candidates are taken from every cell of every row" if okl else
-                          "candidate scan does not cover range(self.depth) x range(self.width)", fact_strs(e)))
+            res_l.append(((None if unread and not okl else bool(okl)), "candidates are taken from every cell of every row" if okl else
+                          "candidate scan does not cover range(self.depth) x range(self.width)" + (" (cells are not enumerated by range loops: shape not read)" if unread else ""), fact_strs(e)))
         agg(ctx, "report", gcs, g[0].node, src(gcs, g[0].node), "a reported key is a stored key", res_k)
         agg(ctx, "same-kernel", gcs, g[0].node, src(gcs, g[0].node), "a reported count is the reader kernel's value for that key (== hh[key])", res_c)
         agg(ctx, "scan-all", gcs, g[0].node, src(gcs, g[0].node), "the candidate scan visits all rows and all columns", res_l)
@@ -861,9 +892,11 @@ def rule_skip_zero(ctx):
     for e in starts:
         lp = e.loop
         full.append(lp.kind == "range" and lp.start == Lin.const(0) and lp.step == Lin.const(1))
+    unread = any(e.loop.kind != "range" for e in starts)
     agg(ctx, "scan-all", gcs, (early[0].node if early else gcs.node), "row/column loops of generate_candidate_set",
-        "every cell of the table is examined (full ranges, no early exit)", res or [(bool(full) and all(full), "full ranges, no early exit"
-                                                                                 if full and all(full) else "a scan loop does not start at 0 with step 1", [])])
+        "every cell of the table is examined (full ranges, no early exit)",
+        res or [((None if unread else bool(full) and all(full)), "full ranges, no early exit" if full and all(full) else
+                 "a scan loop is not a range loop: what it enumerates is not read" if unread else "a scan loop does not start at 0 with step 1", [])])
 
 
 # ---------------------------------------------------------------------------
